@@ -1,4 +1,5 @@
 # Per-property configuration of bin/check.
+COQCHK_TIMEOUT = 1500
 JOBS = 16
 COQ_TIMEOUT = 1500
 CASE_TIMEOUT = 900
